@@ -28,7 +28,7 @@ Proof. intros [Hc _]. apply canonb_spec. assumption. Qed.
 
 Lemma case_ok_inv c : case_okb c = true -> Forall Good (c_vals c) /\ args_okb c = true.
 Proof.
-  unfold case_okb. rewrite !andb_true_iff. intros [[Hv _] Ha]. split; [|assumption].
+  unfold case_okb. rewrite !andb_true_iff. intros [[[Hv _] Ha] _]. split; [|assumption].
   apply Forall_forall. intros x Hx. apply goodb_Good.
   rewrite forallb_forall in Hv. apply Hv. assumption.
 Qed.
@@ -320,8 +320,10 @@ Proof.
   destruct (view1 c HF Hn) as (a & E & Ga).
   open_case Hop. rewrite (val0_of c a [] E), (sval0_of c a [] E). cbn [bind].
   rewrite blen_abs.
-  destruct (N.leb_spec (arg c 0) (xlen a)) as [Hle|Hgt]; [|reflexivity].
-  apply ret_v_same. apply x_rotl_spec; assumption.
+  destruct (N.leb_spec (arg c 0) (xlen a)) as [Hle|Hgt].
+  - apply ret_v_same. apply x_rotl_spec; assumption.
+  - destruct (N.eqb_spec (xlen a) 0) as [H0|H0]; [|reflexivity].
+    apply ret_v_same. apply x_rotl_empty; assumption.
 Qed.
 
 Lemma master_op_55 c : c_op c = 55 -> case_okb c = true -> prop_case c (run_case c) = true.
@@ -330,8 +332,10 @@ Proof.
   destruct (view1 c HF Hn) as (a & E & Ga).
   open_case Hop. rewrite (val0_of c a [] E), (sval0_of c a [] E). cbn [bind].
   rewrite blen_abs.
-  destruct (N.leb_spec (arg c 0) (xlen a)) as [Hle|Hgt]; [|reflexivity].
-  apply ret_v_same. apply x_rotr_spec; assumption.
+  destruct (N.leb_spec (arg c 0) (xlen a)) as [Hle|Hgt].
+  - apply ret_v_same. apply x_rotr_spec; assumption.
+  - destruct (N.eqb_spec (xlen a) 0) as [H0|H0]; [|reflexivity].
+    apply ret_v_same. apply x_rotr_empty; assumption.
 Qed.
 
 Lemma master_op_56 c : c_op c = 56 -> case_okb c = true -> prop_case c (run_case c) = true.
@@ -554,7 +558,7 @@ Lemma master_op_97 c : c_op c = 97 -> case_okb c = true -> prop_case c (run_case
 Proof.
   intros Hop Hok.
   open_case Hop. destruct (sval c 0) as [[ka a]|]; [reflexivity|].
-  cbn [res_ok items_ok item_ok]. rewrite !N.eqb_refl. reflexivity.
+  destruct (arg c 0) as [|p]; reflexivity.
 Qed.
 
 (* ------------------------------------------------------------------ assembly *)
